@@ -206,7 +206,7 @@ func zvStoreAliasing(run *core.Run, rng *core.Rand) {
 	func() {
 		defer func() {
 			if p := recover(); p != nil {
-				run.Inconclusive(fmt.Sprint("aliasing monitor: cannot populate the store: ", p))
+				zvSanityFail(run, fmt.Sprint("aliasing monitor: cannot populate the store: ", p))
 				s = nil
 			}
 		}()
@@ -219,12 +219,12 @@ func zvStoreAliasing(run *core.Run, rng *core.Rand) {
 	for _, q := range zvStoreQueries() {
 		first, err := q.run(s)
 		if err != nil {
-			run.Inconclusive("aliasing monitor: query " + q.name + ": " + err.Error())
+			zvSanityFail(run, "aliasing monitor: query "+q.name+": "+err.Error())
 			continue
 		}
 		pristine := zvRender(first)
 		if len(pristine) < 12 {
-			run.Inconclusive("aliasing monitor: query " + q.name + " returned nothing: " + pristine)
+			zvSanityFail(run, "aliasing monitor: query "+q.name+" returned nothing: "+pristine)
 			continue
 		}
 		for k := 0; k < nAuthz; k++ {
@@ -235,7 +235,7 @@ func zvStoreAliasing(run *core.Run, rng *core.Rand) {
 			case 3:
 				p, err := zvRandomPolicyAuthz(rng, fmt.Sprintf("store.%s.%d", q.name, k))
 				if err != nil {
-					run.Inconclusive("policy generator: " + err.Error())
+					zvSanityFail(run, "policy generator: "+err.Error())
 					continue
 				}
 				az = p
@@ -244,7 +244,7 @@ func zvStoreAliasing(run *core.Run, rng *core.Rand) {
 			}
 			subject, err := q.run(s)
 			if err != nil {
-				run.Inconclusive("aliasing monitor: query " + q.name + ": " + err.Error())
+				zvSanityFail(run, "aliasing monitor: query "+q.name+": "+err.Error())
 				break
 			}
 			apply := q.apply
@@ -272,7 +272,7 @@ func zvStoreAliasing(run *core.Run, rng *core.Rand) {
 			}
 			again, err := q.run(s)
 			if err != nil {
-				run.Inconclusive("aliasing monitor: query " + q.name + ": " + err.Error())
+				zvSanityFail(run, "aliasing monitor: query "+q.name+": "+err.Error())
 				break
 			}
 			if a := zvRender(again); a != pristine {
